@@ -1,6 +1,7 @@
 import Hertz.Proofs.RouteTop
 import Hertz.Proofs.RouteInsert
 import Hertz.Proofs.RouteEngine
+import Hertz.Proofs.RouteAccept
 import Hertz.Gen.RouteConsts
 /-!
 # C06 — the router dispatches to the route the documented priority selects
@@ -223,17 +224,125 @@ theorem order_independent (rs rs' : List (Bytes × Bytes × Nat)) (e e' : Engine
     · exact absurd hn (selected_noMatch_excl _ m p r' ps' ((selected_perm _ _ hpermS m p r' ps').2 hs'))
     · rw [hf, hf']
 
+/-! ## Acceptance -/
+
+/-- **Progress of one registration.**  On an engine whose method trees are well formed and hold
+exactly the routes `rs` (`EngineOKc`, the invariant every accepted registration list establishes), a
+registration with a non-empty method and a `checkPathValid` path (`ValidReg`) whose (method, key)
+is not registered yet is accepted: no `.assert`, `.invalid`, `.conflict`, no run-time panic. -/
+theorem register_progress (e : Engine) (cap : Nat) (rs : List Route) (m p : Bytes) (h : Nat)
+    (hok : EngineOKc e cap rs) (hv : ValidReg (m, p, h))
+    (hd : ∀ r ∈ rs, ¬ (r.method = m ∧ keyOf r = keyOf ⟨m, p, h⟩)) :
+    ∃ e', e.addRoute m p h = .ok e' :=
+  addRoute_progress e cap rs m p h hok hv hd
+
+/-- **C06, acceptance characterised.**  A fresh engine accepts a list of registrations iff every
+one is valid on its own (non-empty method, path passes `checkPathValid`) and no two have the same
+method and the same key (pattern with the parameter names removed: `/:a` and `/:b`, `/x/*a` and
+`/x/*b` have the same key).  There is no other conflict between wildcards in the model. -/
+theorem accepted_iff (rs : List (Bytes × Bytes × Nat)) :
+    (∃ e, Engine.addRoutes {} rs = .ok e) ↔
+    ((∀ r ∈ rs, ValidReg r) ∧
+     (toSpec rs).Pairwise (fun r r' => ¬ (r.method = r'.method ∧ keyOf r = keyOf r'))) :=
+  addRoutes_accepts_iff rs
+
+/-- **Refusal classified.**  A refused list splits as `pre ++ r :: post` with `pre` accepted and
+`r` the first registration that is invalid on its own (fault `.assert`/`.invalid`) or that has the
+method and key of a registration in `pre` (fault `.conflict`). -/
+theorem refused_at_first_offender (rs : List (Bytes × Bytes × Nat)) (f : Fault) (h : Engine.addRoutes {} rs = .error f) :
+    ∃ pre r post, rs = pre ++ r :: post ∧ (∃ e1, Engine.addRoutes {} pre = .ok e1) ∧
+      ((¬ ValidReg r ∧ (f = .assert ∨ f = .invalid)) ∨
+       (ValidReg r ∧ f = .conflict ∧
+         ∃ r' ∈ toSpec pre, ¬ ¬ (r'.method = r.1 ∧ keyOf r' = keyOf ⟨r.1, r.2.1, r.2.2⟩))) :=
+  addRoutes_error_class rs f h
+
+/-- Registration never raises a run-time panic (index / slice bounds), for any list of routes. -/
+theorem registration_no_runtime_panic (rs : List (Bytes × Bytes × Nat)) (s : Site) :
+    Engine.addRoutes {} rs ≠ .error (.panic s) :=
+  addRoutes_no_runtime_panic rs s
+
+/-- **C06, acceptance is order independent.**  Two lists without repetition that hold the same
+registrations are both accepted or both refused. -/
+theorem accepted_order_independent (rs rs' : List (Bytes × Bytes × Nat)) (hperm : ∀ x, x ∈ rs ↔ x ∈ rs')
+    (hnd : rs.Nodup) (hnd' : rs'.Nodup) :
+    (∃ e, Engine.addRoutes {} rs = .ok e) ↔ (∃ e', Engine.addRoutes {} rs' = .ok e') :=
+  addRoutes_accepts_set rs rs' hperm hnd hnd'
+
+/-- the same for permutations (repetitions allowed; a repeated registration is refused in both) -/
+theorem accepted_perm_independent (rs rs' : List (Bytes × Bytes × Nat)) (hperm : rs.Perm rs') :
+    (∃ e, Engine.addRoutes {} rs = .ok e) ↔ (∃ e', Engine.addRoutes {} rs' = .ok e') :=
+  addRoutes_accepts_perm rs rs' hperm
+
+/-- The `Nodup` hypotheses of `accepted_order_independent` cannot be dropped: the same set, listed
+once and listed twice. -/
+theorem accepted_needs_nodup :
+    ¬ ∀ rs rs' : List (Bytes × Bytes × Nat), (∀ x, x ∈ rs ↔ x ∈ rs') →
+      ((∃ e, Engine.addRoutes {} rs = .ok e) ↔ (∃ e', Engine.addRoutes {} rs' = .ok e')) := by
+  intro h
+  have h1 := h [([71], [47, 97], 1)] [([71], [47, 97], 1), ([71], [47, 97], 1)] (by simp)
+  have h2 : ∃ e, Engine.addRoutes {} [([71], [47, 97], 1)] = .ok e := ⟨_, rfl⟩
+  obtain ⟨e', he'⟩ := h1.1 h2
+  have h3 : Engine.addRoutes {} [(([71] : Bytes), ([47, 97] : Bytes), 1), ([71], [47, 97], 1)] = .error .conflict := by rfl
+  rw [h3] at he'; cases he'
+
+/-- What DOES depend on the order is the fault reported for a refused set (the first offender in
+registration order): `GET /:a, GET /:b, GET /:` is refused with `conflict`, and the same set
+registered as `GET /:, GET /:a, GET /:b` is refused with `invalid`. -/
+theorem refusal_class_depends_on_order :
+    Engine.addRoutes {} [([71, 69, 84], [47, 58, 97], 1), ([71, 69, 84], [47, 58, 98], 2), ([71, 69, 84], [47, 58], 3)]
+      = .error .conflict ∧
+    Engine.addRoutes {} [([71, 69, 84], [47, 58], 3), ([71, 69, 84], [47, 58, 97], 1), ([71, 69, 84], [47, 58, 98], 2)]
+      = .error .invalid := ⟨by rfl, by rfl⟩
+
+/-- **C06, the property for route sets.**  For two registration orders of the same set of routes
+(patterns shorter than 65536 bytes): registration is accepted in both or refused in both, and when
+it is accepted every request is answered alike — same handler, same `FullPath()`, same parameters,
+or no route handler in both; never a panic. -/
+theorem route_set_semantics (rs rs' : List (Bytes × Bytes × Nat)) (hperm : ∀ x, x ∈ rs ↔ x ∈ rs')
+    (hnd : rs.Nodup) (hnd' : rs'.Nodup) (hlen : ∀ r ∈ rs, r.2.1.length < 65536) :
+    ((∃ e, Engine.addRoutes {} rs = .ok e) ↔ (∃ e', Engine.addRoutes {} rs' = .ok e')) ∧
+    (∀ e e', Engine.addRoutes {} rs = .ok e → Engine.addRoutes {} rs' = .ok e' →
+      ∀ m p, e.serve m p = e'.serve m p ∧
+        ((∃ r ps, Selected (toSpec rs) m p r ps ∧ e.serve m p = .handler ⟨r.handler, r.pattern, ps⟩) ∨
+         (NoMatch (toSpec rs) m p ∧ e.serve m p = .noRoute))) :=
+  ⟨addRoutes_accepts_set rs rs' hperm hnd hnd',
+   fun e e' h h' m p => ⟨order_independent rs rs' e e' hperm hlen h h' m p, serve_selected rs e hlen h m p⟩⟩
+
+/-- The same as one equation: what can be observed of a route set (`observe`: refused, or the
+outcome of each request) is the same for every registration order. -/
+theorem route_set_observation (rs rs' : List (Bytes × Bytes × Nat)) (hperm : ∀ x, x ∈ rs ↔ x ∈ rs')
+    (hnd : rs.Nodup) (hnd' : rs'.Nodup) (hlen : ∀ r ∈ rs, r.2.1.length < 65536) (m p : Bytes) :
+    observe rs m p = observe rs' m p := by
+  have hacc := addRoutes_accepts_set rs rs' hperm hnd hnd'
+  unfold observe
+  cases h : Engine.addRoutes {} rs with
+  | ok e =>
+    obtain ⟨e', h'⟩ := hacc.1 ⟨e, h⟩
+    rw [h']
+    exact congrArg some (order_independent rs rs' e e' hperm hlen h h' m p)
+  | error f =>
+    cases h' : Engine.addRoutes {} rs' with
+    | ok e' => obtain ⟨e, he⟩ := hacc.2 ⟨e', h'⟩; rw [he] at h; cases h
+    | error f' => rfl
+
 /-
-TODO-OPEN (not proved): *acceptance* is order independent, i.e.
-  theorem accepted_order_independent (rs rs') (hperm : ∀ x, x ∈ rs ↔ x ∈ rs') (nodup both) :
-      (∃ e, Engine.addRoutes {} rs = .ok e) ↔ (∃ e', Engine.addRoutes {} rs' = .ok e')
-What is there: `register_one` (a route is refused iff its path is invalid or its key is already in
-the tree of its method) and `accepted_distinct` (necessity).  Missing: the converse fold — a list of
-valid paths with pairwise distinct (method, key) is accepted — which needs `Engine.addRoute` never
-to fail with `.assert`/`.panic` on valid paths (follows from `register_one` and
-`checkPathValid path → path.head? = some 47`) and the induction over the list.  The correspondence
-check covers it empirically: the model and the implementation refuse the same route with the same
-class in every registration order of every enumerated set.
+PROVED (was TODO-OPEN): *acceptance* is order independent (`accepted_order_independent`,
+`accepted_perm_independent`), via the characterisation `accepted_iff` (accepted iff every
+registration is valid on its own and (method, key) are pairwise distinct), whose converse direction
+is the fold of `register_progress` over the list.  `refused_at_first_offender` says which
+registration is refused and with which class; `registration_no_runtime_panic` that the class is never
+a run-time panic.  `route_set_semantics` / `route_set_observation` combine acceptance with
+`order_independent` (dispatch).  The conflicts of the model are exactly the key collisions: `/:a`
+vs `/:b` and `/*a` vs `/*b` at the same position collide because their keys (`/:`, `/*`) are equal;
+a parameter and a catch-all at the same position (`/:a`, `/*b`), or wildcards with different
+continuations (`/:a/x`, `/:b/y`) do not conflict.  Refusal of a SET does not depend on the order;
+the fault class reported does (`refusal_class_depends_on_order`), because registration stops at the
+first offender.
+
+TODO-OPEN (remains): nothing for acceptance at the level of `Engine.addRoutes` on a fresh engine.
+Not covered by these theorems (outside the model): `RouterGroup` prefixes / `calculateAbsolutePath`
+(`path.Join`) applied before `Engine.addRoute` — the correspondence check takes the absolute path
+from the implementation; handler chains longer than one element.
 
 TODO-OPEN (assumption made explicit, not a proof gap of the model): without `hlen`, a pattern with
 65536 or more wildcards makes `countParams` (uint16) wrap, `maxParams` too small and `find` panic
@@ -294,6 +403,48 @@ example : RootOK exRoot 1 := by
       [] [] none none (some (.mk .akind 42 [42] [] [47, 42, 122] [[122]] (some 3) none none)) := by rfl
   rw [h]
   simp [WF, WFL, WFO, PnOK, PnOKL, PnOKO, Lit, depthAt, Node.label, Node.pfx]
+
+/-! ### acceptance: the hypotheses of the acceptance theorems are met by concrete inputs -/
+
+/-- `register_progress`: the example engine satisfies the invariant, `GET /b` is a valid
+registration and its key `/b` is not among the registered keys `/a/:`, `/a/b`, `/*` -/
+example : EngineOKc exEngine exEngine.maxParams (toSpec exRoutes) ∧ ValidReg ([71, 69, 84], [47, 98], 4) ∧
+    ∀ r ∈ toSpec exRoutes, ¬ (r.method = [71, 69, 84] ∧ keyOf r = keyOf ⟨[71, 69, 84], [47, 98], 4⟩) :=
+  ⟨addRoutes_ok exRoutes exEngine (by decide) (by rfl), by decide, by decide⟩
+example : ∃ e', exEngine.addRoute [71, 69, 84] [47, 98] 4 = .ok e' := ⟨_, by rfl⟩
+
+/-- `accepted_iff`, right-hand side true: three valid registrations with three different keys -/
+example : (∀ r ∈ exRoutes, ValidReg r) ∧
+    (toSpec exRoutes).Pairwise (fun r r' => ¬ (r.method = r'.method ∧ keyOf r = keyOf r')) := by decide
+/-- `accepted_iff`, right-hand side false for two different reasons: `/:a` and `/:b` have the same
+key; `/a*x` is not a valid path.  Both lists are refused. -/
+example : ¬ (toSpec [([71, 69, 84], [47, 58, 97], 1), ([71, 69, 84], [47, 58, 98], 2)]).Pairwise
+    (fun r r' => ¬ (r.method = r'.method ∧ keyOf r = keyOf r')) := by decide
+example : Engine.addRoutes {} [([71, 69, 84], [47, 58, 97], 1), ([71, 69, 84], [47, 58, 98], 2)] = .error .conflict := by rfl
+example : ¬ ValidReg ([71, 69, 84], [47, 97, 42, 120], 1) := by decide
+example : Engine.addRoutes {} [([71, 69, 84], [47, 97, 42, 120], 1)] = .error .invalid := by rfl
+/-- the same keys under different methods do not conflict; a parameter and a catch-all at the same
+position do not conflict; `/:a/x` and `/:b/y` do not conflict -/
+example : ∃ e, Engine.addRoutes {} [([71, 69, 84], [47, 58, 97], 1), ([80, 85, 84], [47, 58, 98], 2),
+    ([71, 69, 84], [47, 42, 98], 3), ([71, 69, 84], [47, 58, 98, 47, 121], 4)] = .ok e := ⟨_, by rfl⟩
+
+/-- `refused_at_first_offender`: a refused list (here `pre = [GET /:a]`, `r = GET /:b`, `post = [GET /c]`) -/
+example : Engine.addRoutes {} [([71, 69, 84], [47, 58, 97], 1), ([71, 69, 84], [47, 58, 98], 2), ([71, 69, 84], [47, 99], 3)]
+    = .error .conflict := by rfl
+
+/-- `accepted_order_independent`, `route_set_semantics`, `route_set_observation`: the example routes
+and their reverse are two duplicate-free lists with the same members and short patterns; both
+sides of the equivalence are true for them (above), both false for `/:a`, `/:b` -/
+example : (∀ x, x ∈ exRoutes ↔ x ∈ exRoutes.reverse) ∧ exRoutes.Nodup ∧ exRoutes.reverse.Nodup ∧
+    ∀ r ∈ exRoutes, r.2.1.length < 65536 :=
+  ⟨fun x => by simp, by decide, by decide, by decide⟩
+example : exRoutes.Perm exRoutes.reverse := (List.reverse_perm _).symm
+example : observe exRoutes [71, 69, 84] [47, 97, 47, 99] = some (.handler ⟨1, [47, 97, 47, 58, 120], [([120], [99])]⟩) ∧
+    observe exRoutes.reverse [71, 69, 84] [47, 97, 47, 99] = some (.handler ⟨1, [47, 97, 47, 58, 120], [([120], [99])]⟩) := by
+  decide
+example : observe [([71, 69, 84], [47, 58, 97], 1), ([71, 69, 84], [47, 58, 98], 2)] [71, 69, 84] [47, 99] = none ∧
+    observe [([71, 69, 84], [47, 58, 98], 2), ([71, 69, 84], [47, 58, 97], 1)] [71, 69, 84] [47, 99] = none := by
+  decide
 
 /-- static beats param; param is taken when static cannot complete; catch-all last; backtracking
 out of `/a/` into `/*z` -/
